@@ -80,7 +80,8 @@ type c12Put struct {
 	release chan int // 0 drop (crash), 1 apply, 2 transient Store error
 	done    chan struct{}
 	ticket  int
-	fail    int // fault plan: 0 none, 1 the next attempt fails, 2 every attempt fails
+	fail    int   // fault plan: 0 none, 1 the next attempt fails, 2 every attempt fails
+	gid     int64 // the goroutine that carries this write
 }
 
 type c12Fake struct {
@@ -143,7 +144,7 @@ func (h *c12Handle) Put(ctx context.Context, ns, key string, value []byte) error
 		f.log.add("sp%s", c12Idx(lkey))
 		return nil
 	}
-	p := &c12Put{key: lkey, val: v, release: make(chan int, 1), done: make(chan struct{}), ticket: -1}
+	p := &c12Put{key: lkey, val: v, release: make(chan int, 1), done: make(chan struct{}), ticket: -1, gid: c12GID()}
 	f.parked = append(f.parked, p)
 	f.mu.Unlock()
 	how := <-p.release
@@ -722,20 +723,23 @@ func (e *c12Env) sameKeyParked(key string) bool {
 // after a put failed with a transient error: did the implementation repeat the write?  A put of the same key with
 // the same stamp that turns up is that retry; it keeps the ticket (and the fault plan if it fails on every attempt).
 func (e *c12Env) reclaim(p *c12Put) bool {
-	st := c12StampOf(p.val)
+	// handshake, no fixed sleep: the goroutine that carried the failed write either brings the same write to the
+	// store again (a repetition inside its slot, whenever its back-off allows) or finishes (the write is given up)
 	var got *c12Put
-	c12WaitFor(20*time.Millisecond, func() bool {
+	c12WaitFor(5*time.Second, func() bool {
 		e.fake.mu.Lock()
-		defer e.fake.mu.Unlock()
 		for _, q := range e.fake.parked {
-			if q.ticket < 0 && q.key == p.key && c12StampOf(q.val) == st && bytes.Equal(q.val, p.val) {
+			if q.ticket < 0 && q.key == p.key && q.gid == p.gid && bytes.Equal(q.val, p.val) {
 				got = q
-				return true
+				break
 			}
 		}
-		return false
+		e.fake.mu.Unlock()
+		return got != nil || !c12GoroutineAlive(p.gid)
 	})
 	if got == nil {
+		// a repetition that takes a NEW place in the order (another goroutine / after later writes) is not a
+		// repetition inside the slot; if one turns up it stays an unticketed write
 		return false
 	}
 	got.ticket = p.ticket
@@ -746,6 +750,16 @@ func (e *c12Env) reclaim(p *c12Put) bool {
 		e.tickets[p.ticket] = got
 	}
 	return true
+}
+
+func c12GoroutineAlive(gid int64) bool {
+	for sz := 1 << 20; ; sz *= 2 {
+		buf := make([]byte, sz)
+		n := runtime.Stack(buf, true)
+		if n < sz || sz >= 1<<26 { // complete dump
+			return bytes.Contains(buf[:n], []byte(fmt.Sprintf("goroutine %d [", gid)))
+		}
+	}
 }
 
 // finishPut completes a parked put (applying it unless its fault plan fails it) and reports a retry
